@@ -73,6 +73,31 @@ pub fn install_panic_hook() {
     }));
 }
 
+/// children print their panics to stderr in a recognisable, parseable form
+pub fn install_panic_hook_printing() {
+    std::panic::set_hook(Box::new(|info| {
+        let thread = std::thread::current()
+            .name()
+            .unwrap_or("<unnamed>")
+            .to_string();
+        let loc = info
+            .location()
+            .map(|l| format!("{}:{}", l.file(), l.line()))
+            .unwrap_or_default();
+        let message = if let Some(s) = info.payload().downcast_ref::<&str>() {
+            (*s).to_string()
+        } else if let Some(s) = info.payload().downcast_ref::<String>() {
+            s.clone()
+        } else {
+            "<non-string panic payload>".to_string()
+        };
+        eprintln!(
+            "FLMON-CHILD-PANIC thread={thread} at={loc} msg={}",
+            message.replace('\n', " ")
+        );
+    }));
+}
+
 pub fn take_panics() -> Vec<PanicRec> {
     PANICS
         .lock()
